@@ -68,14 +68,22 @@ type sigKey struct {
 
 var sigCache sync.Map // sigKey -> *blsu.Signature
 
-func signOne(n KeyNum, msg common.Root) *blsu.Signature {
+type cachedSig struct {
+	sig *blsu.Signature // affine, never written after publication (Aggregate only reads it)
+	ser [96]byte
+}
+
+func signOne(n KeyNum, msg common.Root) *cachedSig {
 	k := sigKey{n, msg}
 	if v, ok := sigCache.Load(k); ok {
-		return v.(*blsu.Signature)
+		return v.(*cachedSig)
 	}
 	s := blsu.Sign(keyOf(n).sk, msg[:])
-	sigCache.Store(k, s)
-	return s
+	// Serialize() converts the point to affine form IN PLACE (a write even when already affine): do it exactly once,
+	// before the object is shared between goroutines.
+	cs := &cachedSig{sig: s, ser: s.Serialize()}
+	act, _ := sigCache.LoadOrStore(k, cs)
+	return act.(*cachedSig)
 }
 
 var pubDecoded sync.Map // common.BLSPubkey -> *blsu.Pubkey (nil entry = invalid)
@@ -126,13 +134,18 @@ func (t *BLSTable) Sign(keys []KeyNum, msg common.Root) common.BLSSignature {
 	}
 	sigs := make([]*blsu.Signature, len(keys))
 	pks := make([]string, len(keys))
+	var first *cachedSig
 	for i, k := range keys {
-		sigs[i] = signOne(k, msg)
+		cs := signOne(k, msg)
+		if i == 0 {
+			first = cs
+		}
+		sigs[i] = cs.sig
 		pks[i] = hex.EncodeToString(keyOf(k).pkb[:])
 	}
 	var out common.BLSSignature
 	if len(sigs) == 1 {
-		out = sigs[0].Serialize()
+		out = first.ser
 	} else {
 		agg, err := blsu.Aggregate(sigs)
 		if err != nil {
